@@ -167,7 +167,7 @@ func init() {
 		Title: "Shutdown always completes: no hang, no panic, channels closed",
 		Explain: "Decides structural necessary conditions of clean shutdown: WaitGroup Add/Done pairing of the fan-out helpers (C12.pairing; the pipeline groups are covered by C01/C03/C07 rules that this property shares); a frozen table of close() sites per channel field with their once/defer attributes, so that a second closer or a closer outside its sync.Once is reported (C12.close-sites); the close/wait hand-shakes of client, broker, offset manager, heartbeat, partition consumer and subscription manager (C12.handshakes); every blocking select of the long-running loops has a case on its component's shutdown channel (C12.dying); for channels closed by their only sender, the sender table (C12.who-sends). " +
 			"NOT covered: absence of deadlock in general, send/close races that need a happens-before argument (consumerGroup.errors, partitionConsumer.errors/trigger).",
-		Rules: []func(*Ctx){c12Pairing, c12CloseSites, c12Handshakes, c12Dying, c12WhoSends, c01Shutdown, c01Markers},
+		Rules: []func(*Ctx){c12Pairing, c12CloseSites, c12OnceComplete, c12Handshakes, c12Dying, c12WhoSends, c01Shutdown, c01Markers},
 	})
 }
 
@@ -331,6 +331,97 @@ func c12CloseSites(c *Ctx) {
 			c.Fail(rule, nil, "field:"+f, nil, "tabled channel is never closed: its readers never terminate", nil)
 		}
 	}
+}
+
+// c12OnceComplete: the closure handed to sync.Once.Do in a Close/release path runs at most once in the
+// component's life; a `return` in its middle skips the remaining teardown for good (the second Close is a
+// no-op).  Every step that lies on every path to the closure's final return must lie on every path to each
+// of its returns.
+func c12OnceComplete(c *Ctx) {
+	p := c.P
+	rule := "C12.once-complete"
+	c.Doc(rule, "every function literal passed to (*sync.Once).Do: each teardown step (call, go statement, close, channel receive) that is on every path to the closure's last return is on every path to each of its returns — no early return skips teardown that the normal path performs")
+	c.Floor(rule, 5)
+	for _, fn := range p.Fns {
+		if fn.Pkg != p.Sarama || p.inFile(fn, "mockbroker.go") {
+			continue
+		}
+		for _, s := range Info(fn).Find(p.CallTo("(*sync.Once).Do")) {
+			cl := p.closureArg(s, 1)
+			if cl == nil {
+				continue
+			}
+			// returns of the closure, the textually last one is the normal exit
+			var rets []*ssa.Return
+			for _, b := range cl.Blocks {
+				if r, ok := lastInstr(b).(*ssa.Return); ok && !IsRecoverBlock(b) {
+					rets = append(rets, r)
+				}
+			}
+			if len(rets) == 0 {
+				continue
+			}
+			// the normal exit: falling off the end of the closure (go/ssa emits that return without a position),
+			// else the textually last return statement
+			last := rets[0]
+			for _, r := range rets {
+				switch {
+				case !last.Pos().IsValid():
+				case !r.Pos().IsValid(), r.Pos() > last.Pos():
+					last = r
+				}
+			}
+			reg := WholeFn(cl)
+			isStep := func(it Item) bool {
+				switch x := it.In.(type) {
+				case *ssa.Call:
+					if b, ok := x.Call.Value.(*ssa.Builtin); ok {
+						return b.Name() == "close"
+					}
+					return true
+				case *ssa.Go, *ssa.Defer:
+					return true
+				case *ssa.UnOp:
+					return x.Op == token.ARROW
+				}
+				return false
+			}
+			bad := ""
+			var at ssa.Instruction
+			var path []*ssa.BasicBlock
+			for _, st := range reg.Find(isStep) {
+				// must-step of the normal exit?
+				if it, _ := reg.MustPrecede(IsItem(st), Is(last)); !it.IsZero() {
+					continue
+				}
+				for _, r := range rets {
+					if r == last {
+						continue
+					}
+					if it, pth := reg.MustPrecede(IsItem(st), Is(r)); !it.IsZero() {
+						bad, at, path = describeStep(p, st), r, pth
+					}
+				}
+			}
+			c.Check(bad == "", rule, fn, "no-early-return-skips-teardown", at, "no return of the once-closure skips a step its normal exit always performs",
+				"the closure handed to sync.Once.Do can return before "+bad+", which its normal exit always performs: the teardown is skipped and can never be repeated (output channel left open, embedded client / goroutines leaked)", path)
+		}
+	}
+}
+
+func describeStep(p *Program, it Item) string {
+	switch x := it.In.(type) {
+	case *ssa.Call:
+		if b, ok := x.Call.Value.(*ssa.Builtin); ok {
+			return b.Name() + "(" + describe(x.Call.Args[0]) + ")"
+		}
+		return "the call of " + p.CalleeName(&x.Call)
+	case *ssa.Go:
+		return "the go statement at " + p.Pos(x)
+	case *ssa.UnOp:
+		return "the receive from " + describe(x.X)
+	}
+	return "a teardown step"
 }
 
 func c12Handshakes(c *Ctx) {
